@@ -18,6 +18,7 @@ import (
 	"time"
 
 	simplefixgo "github.com/b2broker/simplefix-go"
+	"github.com/b2broker/simplefix-go/fix"
 	"github.com/b2broker/simplefix-go/session"
 	"github.com/b2broker/simplefix-go/session/messages"
 	"github.com/b2broker/simplefix-go/storages/memory"
@@ -935,6 +936,209 @@ func reuseResend(r *rand.Rand, o *hout.Out, fresh bool) {
 	h.Stop()
 }
 
+// stalledWriter (C14, C05): the connection's writer is slower than the session: the outgoing queue (small) fills up
+// while TestRequests keep arriving. Every request is still answered by exactly one Heartbeat with its id, the answers
+// leave in the order of the requests, and sequence numbers on the wire stay consecutive.
+func stalledWriter(r *rand.Rand, o *hout.Out) {
+	buf := []int{0, 1, 2, 4, 8}[r.Intn(5)]
+	h := simplefixgo.NewAcceptorHandler(context.Background(), "35", buf)
+	store := memory.NewStorage()
+	s, err := session.NewAcceptorSession(makeOpts(), h, &session.LogonSettings{LogonTimeout: time.Second, CloseTimeout: time.Second,
+		HeartBtLimits: &session.IntLimits{Min: 1, Max: 600}}, func(*session.LogonSettings) error { return nil }, store, store)
+	if err != nil {
+		panic(err)
+	}
+	_ = s.Run()
+	go func() { _ = h.Run() }()
+	var got [][]byte
+	var gmu sync.Mutex
+	release := make(chan struct{})
+	stop := make(chan struct{})
+	go func() { // the writer: takes the Logon answer, then stalls until released, then drains
+		first := true
+		for {
+			select {
+			case m := <-h.Outgoing():
+				gmu.Lock()
+				got = append(got, m)
+				gmu.Unlock()
+				if first {
+					first = false
+					<-release
+				}
+			case <-stop:
+				return
+			}
+		}
+	}()
+	n := 10 + r.Intn(30)
+	fed := make(chan struct{})
+	go func() {
+		h.ServeIncoming(frame(body([]fld{{"35", "A"}, {"49", "PEER"}, {"56", "ME"}, {"34", "1"}, {"52", "20240101-00:00:00.000"}, {"98", "0"}, {"108", "500"}})))
+		for i := 0; i < n; i++ {
+			h.ServeIncoming(frame(body([]fld{{"35", "1"}, {"49", "PEER"}, {"56", "ME"}, {"34", strconv.Itoa(i + 2)}, {"52", "20240101-00:00:00.000"}, {"112", fmt.Sprintf("id%03d", i)}})))
+		}
+		close(fed)
+	}()
+	time.Sleep(time.Duration(50+r.Intn(250)) * time.Millisecond) // the queue is full by now, the dispatcher is waiting for room
+	close(release)
+	select {
+	case <-fed:
+	case <-time.After(5 * time.Second):
+	}
+	for dl := time.Now().Add(3 * time.Second); time.Now().Before(dl); {
+		gmu.Lock()
+		k := len(got)
+		gmu.Unlock()
+		if k >= n+1 {
+			break
+		}
+		time.Sleep(2 * time.Millisecond)
+	}
+	time.Sleep(20 * time.Millisecond)
+	close(stop)
+	h.Stop()
+	gmu.Lock()
+	defer gmu.Unlock()
+	desc := fmt.Sprintf("outgoing queue of %d, %d TestRequests while the writer stalls", buf, n)
+	var ids, seqs []string
+	for _, m := range got {
+		_, f := render(m)
+		seqs = append(seqs, f["34"])
+		if f["35"] == "0" {
+			ids = append(ids, f["112"])
+		}
+	}
+	okOrder := len(ids) == n
+	for i := 0; okOrder && i < n; i++ {
+		okOrder = ids[i] == fmt.Sprintf("id%03d", i)
+	}
+	if !okOrder {
+		o.Fail("C14", "testrequests-not-answered-once-in-order", fmt.Sprintf("%s: Heartbeats echo %v", desc, ids))
+	}
+	for i, q := range seqs {
+		if q != strconv.Itoa(i+1) {
+			o.Fail("C05", "sequence-broken", fmt.Sprintf("%s: message %d on the wire carries 34=%s; all: %v", desc, i, q, seqs))
+			break
+		}
+	}
+	o.Nontrivial("C14", desc)
+	o.Nontrivial("C05", desc)
+	o.Count("ev.stalled-writer")
+}
+
+// stopStalled (C15): Stop() while the outgoing queue is full and nobody reads it (the peer has stopped reading): the
+// Logout cannot even be queued, yet the context must be cancelled once the close timeout has elapsed.
+func stopStalled(r *rand.Rand, o *hout.Out) {
+	buf := []int{0, 1, 3}[r.Intn(3)]
+	h := simplefixgo.NewAcceptorHandler(context.Background(), "35", buf)
+	store := memory.NewStorage()
+	closeAfter := time.Duration(150+r.Intn(200)) * time.Millisecond
+	s, err := session.NewAcceptorSession(makeOpts(), h, &session.LogonSettings{LogonTimeout: time.Second, CloseTimeout: closeAfter,
+		HeartBtLimits: &session.IntLimits{Min: 1, Max: 600}}, func(*session.LogonSettings) error { return nil }, store, store)
+	if err != nil {
+		panic(err)
+	}
+	_ = s.Run()
+	go func() { _ = h.Run() }()
+	// log on, taking the answer off the queue; then fill the queue and leave it
+	h.ServeIncoming(frame(body([]fld{{"35", "A"}, {"49", "PEER"}, {"56", "ME"}, {"34", "1"}, {"52", "20240101-00:00:00.000"}, {"98", "0"}, {"108", "500"}})))
+	select {
+	case <-h.Outgoing():
+	case <-time.After(2 * time.Second):
+	}
+	for i := 0; i < buf; i++ {
+		_ = s.Send(fixgen.NewMarketDataRequest().SetMDReqID("fill" + strconv.Itoa(i)))
+	}
+	parked := r.Intn(2) == 0
+	if parked { // one more sender is already waiting for room (it holds the session's send lock)
+		go func() { _ = s.Send(fixgen.NewMarketDataRequest().SetMDReqID("parked")) }()
+		time.Sleep(20 * time.Millisecond)
+	}
+	t0 := time.Now()
+	go func() { _ = s.Stop() }()
+	cancelledAfter := time.Duration(-1)
+	select {
+	case <-s.Context().Done():
+		cancelledAfter = time.Since(t0)
+	case <-time.After(closeAfter + 1500*time.Millisecond):
+	}
+	desc := fmt.Sprintf("Stop() with a full outgoing queue of %d nobody reads (another sender parked: %v), close timeout %v", buf, parked, closeAfter)
+	if cancelledAfter < 0 {
+		o.Fail("C15", "stop-deadline", fmt.Sprintf("%s: context still alive %v after Stop()", desc, time.Since(t0)))
+	} else if cancelledAfter < closeAfter-20*time.Millisecond {
+		o.Fail("C15", "stop-deadline", fmt.Sprintf("%s: context cancelled after only %v without any answer", desc, cancelledAfter))
+	}
+	o.Nontrivial("C15", desc)
+	o.Count("ev.stop-stalled")
+	h.Stop()
+}
+
+// counterSetBack (C19): the application sets the outgoing counter back on its own CounterStorage (a sequence reset): every
+// message sent afterwards must still be saved under its own (now lower) number before it leaves.
+func counterSetBack(r *rand.Rand, o *hout.Out) {
+	h := simplefixgo.NewAcceptorHandler(context.Background(), "35", 64)
+	store := memory.NewStorage()
+	s, err := session.NewAcceptorSession(makeOpts(), h, &session.LogonSettings{LogonTimeout: time.Second, CloseTimeout: time.Second,
+		HeartBtLimits: &session.IntLimits{Min: 1, Max: 600}}, func(*session.LogonSettings) error { return nil }, store, store)
+	if err != nil {
+		panic(err)
+	}
+	_ = s.Run()
+	go func() { _ = h.Run() }()
+	h.ServeIncoming(frame(body([]fld{{"35", "A"}, {"49", "PEER"}, {"56", "ME"}, {"34", "1"}, {"52", "20240101-00:00:00.000"}, {"98", "0"}, {"108", "500"}})))
+	select {
+	case <-h.Outgoing():
+	case <-time.After(2 * time.Second):
+	}
+	id := fix.StorageID{Sender: "ME", Target: "PEER", Side: fix.Outgoing}
+	check := func(phase string, i int) bool {
+		m := fixgen.NewMarketDataRequest().SetMDReqID(fmt.Sprintf("%s-%d", phase, i))
+		_ = s.Send(m)
+		var w []byte
+		select {
+		case w = <-h.Outgoing():
+		case <-time.After(2 * time.Second):
+			o.Fail("C19", "message-not-sent", phase)
+			return false
+		}
+		_, f := render(w)
+		q, _ := strconv.Atoi(f["34"])
+		saved, err := store.Messages(id, q, q)
+		var sb []byte
+		if err == nil && len(saved) == 1 {
+			sb, _ = saved[0].ToBytes()
+		}
+		if !bytes.Equal(sb, w) {
+			o.Fail("C19", "sent-but-not-saved-under-its-number", fmt.Sprintf("%s: 34=%d left the session as %q; the store holds %q under %d (err=%v)", phase, q, w, sb, q, err))
+			return false
+		}
+		return true
+	}
+	k := 2 + r.Intn(5)
+	for i := 0; i < k; i++ {
+		if !check("before", i) {
+			h.Stop()
+			return
+		}
+	}
+	back := r.Intn(k + 1) // the counter now says `back` messages were sent
+	if r.Intn(3) == 0 {
+		_ = store.ResetSeqNum(id)
+		back = 0
+	} else {
+		_ = store.SetSeqNum(id, back)
+	}
+	for i := 0; i < 1+r.Intn(4); i++ {
+		if !check(fmt.Sprintf("after-set-back-to-%d", back), i) {
+			break
+		}
+	}
+	o.Nontrivial("C19", fmt.Sprintf("set back %d of %d", back, k))
+	o.Count("ev.counter-set-back")
+	h.Stop()
+}
+
 func min(a, b int) int {
 	if a < b {
 		return a
@@ -955,6 +1159,9 @@ func main() {
 		if i%10 == 0 {
 			raceLogout(r, o, i%20 == 0)
 			reuseResend(r, o, i%20 == 0)
+			stalledWriter(r, o)
+			stopStalled(r, o)
+			counterSetBack(r, o)
 		}
 	}
 }
